@@ -327,6 +327,8 @@ RULES = {
     "R16b": [(".unwrap_or_else(Local::now)", ".unwrap_or_else(|| -> (r: DateTime<Local>) ensures r == clock_now() { Local::now() })")],
     # R3b (computed): a closure whose single parameter is a tuple pattern gets a variable parameter `p0__` and a destructuring `let`
     "R3b": [],
+    # R23: `s.chunks(n)` (an iterator type without specification) -> shim `s.vchunks(n)`: the eager vector of the chunks
+    "R23": [(".chunks(", ".vchunks(")],
     # R22: `new_spec.as_ref()` (S: AsRef<str>) -> shim `vas_ref(&new_spec)`
     "R22": [("new_spec.as_ref()", "vas_ref(&new_spec)")],
     # R21: `th.join().ok()` (JoinHandle::join returns Result<_, Box<dyn Any + Send>>: a dyn with two traits, outside Verus) -> shim `vjoin(th)`
